@@ -409,4 +409,83 @@ theorem runSt_inv (src : Nat → UInt8) (fc : FC) (h0 : fc.highest = 0) (ops : L
     simp only [List.foldl_cons]
     exact ih (fun o ho => hops o (List.mem_cons_of_mem _ ho)) _ (stepSt_inv hinit op (hops op (by simp)))
 
+/-! ### the reset error comes after the reliable prefix -/
+
+/-- the cancellation error is only reported when the stream was cancelled locally or a remote reset is
+effective (all of the reliable prefix was read) -/
+def CancelOK (s : RStream) (st : RStatus) : Prop :=
+  ∀ e, st = .cancelled e → (s.cancelledLocally = true ∨ s.remoteEff = true) ∧ e = s.cancelErr
+
+theorem remoteEff_errorRead (s : RStream) : ({ s with errorRead := true } : RStream).remoteEff = s.remoteEff := rfl
+
+theorem readLoop_cancel (fuel : Nat) (a : ReadAcc) (n : Nat) :
+    CancelOK (readLoop fuel a n).1.s (readLoop fuel a n).2 := by
+  induction fuel generalizing a with
+  | zero => intro e h; cases h
+  | succ f ih =>
+    rw [readLoop]
+    split
+    · generalize a.deqIfNeeded.1 = a1
+      generalize a.deqIfNeeded.2 = pan
+      simp only
+      split
+      · intro e h; cases h
+      split
+      · intro e h; split at h <;> cases h
+      split
+      · intro e h; cases h
+      split
+      · rename_i hc
+        intro e h
+        simp only [RStatus.cancelled.injEq] at h
+        refine ⟨?_, h.symm⟩
+        simp only [Bool.or_eq_true] at hc
+        exact hc
+      split
+      · intro e h; split at h <;> cases h
+      split
+      · intro e h; cases h
+      · exact ih _
+    · split
+      · rename_i hc
+        intro e h
+        simp only [RStatus.cancelled.injEq] at h
+        exact ⟨Or.inr hc, h.symm⟩
+      · intro e h; cases h
+
+/-- **RESET_STREAM_AT.** `Read` reports the cancellation error only if the stream was cancelled locally,
+or it was reset by the peer *and* the read position has reached the reliable size: the reliable prefix is
+always delivered before the reset error. -/
+theorem read_cancel_spec (s : RStream) (n : Nat) (e : Option (Nat × Bool)) (h : (s.read n).status = .cancelled e) :
+    (s.read n).s.cancelledLocally = true ∨
+    ((s.read n).s.cancelledRemotely = true ∧ (s.read n).s.readPos ≥ (s.read n).s.reliableSize) := by
+  unfold RStream.read at h ⊢
+  simp only at h ⊢
+  have key : ∀ (x : RStream), (x.cancelledLocally = true ∨ x.remoteEff = true) →
+      x.isNewlyCompleted.1.cancelledLocally = true ∨
+      (x.isNewlyCompleted.1.cancelledRemotely = true ∧ x.isNewlyCompleted.1.readPos ≥ x.isNewlyCompleted.1.reliableSize) := by
+    intro x hx
+    have hf : x.isNewlyCompleted.1.cancelledLocally = x.cancelledLocally ∧ x.isNewlyCompleted.1.cancelledRemotely = x.cancelledRemotely ∧
+        x.isNewlyCompleted.1.readPos = x.readPos ∧ x.isNewlyCompleted.1.reliableSize = x.reliableSize := by
+      unfold RStream.isNewlyCompleted
+      (repeat' split) <;> simp
+    rw [hf.1, hf.2.1, hf.2.2.1, hf.2.2.2]
+    rcases hx with hx | hx
+    · exact Or.inl hx
+    · right
+      simp only [RStream.remoteEff, Bool.and_eq_true, decide_eq_true_eq] at hx
+      exact hx
+  split at h
+  · cases h
+  split at h
+  · rename_i _ hc
+    rw [if_neg (by assumption), if_pos hc]
+    apply key
+    simp only [Bool.or_eq_true] at hc
+    exact hc
+  split at h
+  · cases h
+  · rw [if_neg (by assumption), if_neg (by assumption), if_neg (by assumption)]
+    exact key _ ((readLoop_cancel (n + 1) { s := s } n e h).1)
+
 end Uquic.Proofs.Stream
